@@ -12,7 +12,7 @@ RULE = ("connected netlists (spanning chain + random nets of arity 2-4, weights 
 ASSUMPTIONS = [
     "every module is on some net and the netlist is connected; terminals appear only as fixed terminals (fixed modules without rectangles); movable zero-area nodes are outside the quantifier",
     "containment judged with slack 1e-9 x die size; fixed coordinates with 1e-9 x die size (the code re-centres by (c-h)+h)",
-    "only start vectors an actual seed produces are used (a hand-made degenerate start would be a false alarm by construction)",
+    "only start vectors an actual seed produces are used (a hand-made degenerate start would be a false alarm by construction); with nfloorplans = 0 the given initial centres are generic (random positions to four significant digits): a start in which all movable modules share an x or a y coordinate has no direction to iterate from and divides by zero, at every scale (the thorough tier met it when centres rounded to 3 decimals all became 0.0 on a die of 1e-4 units)",
 ]
 CASES = {"quick": 480, "thorough": 20000}
 MIN_CASES = {"quick": 60, "thorough": 1500}
@@ -76,7 +76,7 @@ def generate(rng, tier, i):
         if rng.random() < 0.65:
             mods[f"S{k}"] = {"area": float(f"{area:.6g}")}
             if rng.random() < 0.3:
-                mods[f"S{k}"]["center"] = [round(rng.uniform(0, W), 3), round(rng.uniform(0, H), 3)]
+                mods[f"S{k}"]["center"] = [float(f"{rng.uniform(0, W):.4g}"), float(f"{rng.uniform(0, H):.4g}")]
         else:
             # hard module: one or two abutting rectangles with that total area (roughly)
             s = math.sqrt(area)
@@ -90,7 +90,7 @@ def generate(rng, tier, i):
             else:
                 def q(v):
                     return float(f"{v:.5g}")
-                cx, cy = round(rng.uniform(s, W + s), 3), round(rng.uniform(s, H + s), 3)
+                cx, cy = float(f"{rng.uniform(s, W + s):.5g}"), float(f"{rng.uniform(s, H + s):.5g}")
             s = q(s)
             h1, h2 = q(s * 0.6), q(s * 0.2)
             if rng.random() < 0.5:
@@ -126,7 +126,7 @@ def generate(rng, tier, i):
         n = 0
         for name, m in mods.items():
             if "area" in m and "center" not in m:
-                m["center"] = [round(rng.uniform(0, W), 3), round(rng.uniform(0, H), 3)]
+                m["center"] = [float(f"{rng.uniform(0, W):.4g}"), float(f"{rng.uniform(0, H):.4g}")]
     again = None
     if n > 0 and not any(m.get("fixed") for m in mods.values()) and rng.random() < 0.85:
         rmax = max(math.sqrt((m["area"] if "area" in m else sum(r[2] * r[3] for r in m["rectangles"])) / math.pi) for m in mods.values())
